@@ -26,6 +26,10 @@ struct AllocTrack {
   // harness decides it - -1 leaves whatever the allocator returns, 0..255 fills the block with that byte (calloc stays zero)
   volatile int poison = -1;
   void fresh(void* p, size_t s) { if (poison >= 0 && p && s) memset(p, poison, s); }
+  // content of a block once it has been freed: equally indeterminate (the allocator may hand it out again, scribble its own lists into it
+  // or unmap it) - 0..255 fills every tracked block with that byte at the moment it is freed, so that a later use of the freed object
+  // (a table released too early, a reference count that went wrong) reads garbage instead of the old content; -1 leaves it alone
+  volatile int poison_free = -1;
   // address of malloc / calloc / realloc blocks modulo 64 (malloc only promises 16): -1 leaves the allocator alone, 0/16/32/48 makes
   // every such block start at that residue, its END still being the end of the underlying allocation (so overruns stay visible)
   volatile int residue = -1;
@@ -49,11 +53,12 @@ struct AllocTrack {
   size_t live_bytes() const { size_t c = 0; for (int i = 0; i < n; ++i) if (rec[i].live) c += rec[i].size; return c; }
   void add(void* p, size_t s) { allocs++; if (n < ALLOC_CAP) { rec[n].p = p; rec[n].size = s; rec[n].live = 1; n++; } }
   bool in_arena(void* p) const { return arena && (uint8_t*)p >= arena && (uint8_t*)p < arena + arena_size; }
-  void del(void* p) {
-    if (!p) return;
+  size_t del(void* p) {
+    if (!p) return 0;
     frees++;
-    for (int i = n - 1; i >= 0; --i) if (rec[i].p == p && rec[i].live) { rec[i].live = 0; return; }
+    for (int i = n - 1; i >= 0; --i) if (rec[i].p == p && rec[i].live) { rec[i].live = 0; return rec[i].size; }
     unknown_frees++;
+    return 0;
   }
   void* arena_alloc(size_t align, size_t s) {
     if (align < 64) align = 64;
@@ -78,7 +83,7 @@ void* __wrap_malloc(size_t s) {
 }
 void __wrap_free(void* p) {
   vf::AllocTrack& t = vf::alloc_track();
-  if (t.on) t.del(p);
+  if (t.on) { size_t sz = t.del(p); if (sz && t.poison_free >= 0) memset(p, t.poison_free, sz); }
   if (t.in_arena(p)) return;
   if (t.nshift) { void* b = t.shifted_base(p); if (b) { __real_free(b); return; } }
   __real_free(p);
